@@ -323,6 +323,10 @@ func (x *Exec) execRange(s *State, st *ast.RangeStmt, label string) *State {
 				x.cur.env.Bind(keyObj, idxCell)
 			}
 		}
+		if ord >= 0 {
+			// the hidden position of a range loop is visible to contracts as idx<ord>
+			x.cur.env.Bind(types.NewVar(st.Pos(), nil, fmt.Sprintf("idx%d", ord), intT), idxCell)
+		}
 		x.checkInvs(s, invs, ord, "init", st.Pos())
 		h := s
 		x.havocFor(h, fmt.Sprintf("loop%d", ord), st.Body)
@@ -403,6 +407,7 @@ func (x *Exec) assumeElemFacts(s *State, v *Value) {
 	case KSlice:
 		if v.Len.S == SInt {
 			s.Assume(Ge(v.Len, Zero))
+			x.sliceTypeAxioms(v)
 		}
 	case KPtr:
 		if v.Cell != 0 {
